@@ -192,6 +192,9 @@ def payload_docs(r, n):
                 "<%s>\n" % url, "```%s\ncode %s\n```\n" % (pay, pay), "~~~ x%s y\n~~~\n" % pay, "    indented %s\n" % pay, "`%s`\n" % pay,
                 "# %s\n" % pay, "%s\n===\n" % pay, "> %s\n" % pay, "- %s\n" % pay, "%s\n" % pay, "<div>\n%s\n</div>\n" % pay,
                 "a %s b\n" % pay, "\\%s\n" % pay, "[%s]: /u\n\n[%s]\n" % (pay, pay), "*[%s]: %s\n\n%s\n" % ("AB", pay, "AB"),
+                # the key of an abbreviation, a footnote, a definition term is document text as well: keys the inline rules leave alone
+                "*[%s]: T %s\n\nsee %s here\n" % (pay, pay, pay), "*[<x9 y9=1 //]: T\n\npress <x9 y9=1 // now %s\n" % pay, "*[a<=b]: T\n\nif a<=b then %s\n" % pay,
+                "[^%s]: note\n\nref[^%s]\n" % (pay, pay),
                 "[^%s]: note %s\n\nref[^%s]\n" % ("n", pay, "n"), "| %s |\n|---|\n| %s |\n" % (pay, pay), "term %s\n: def %s\n" % (pay, pay),
                 "$%s$\n\n$$\n%s\n$$\n" % (pay, pay), "[漢(%s)]\n" % "x9", "[漢字(%s)]\n" % pay, "[k%s(r)]\n" % pay, "[漢(%s)字(%s)][r]\n\n[r]: %s\n" % (pay, "x9", url), "- [ ] %s\n" % pay, ">! %s\n\n>!%s!<\n" % (pay, pay),
                 "~~%s~~ ==%s== ^^%s^^ ^%s^ ~%s~\n" % (pay, pay, pay, "x9", "x9"), "https://x9.example/%s\n" % pay,
